@@ -742,6 +742,24 @@ func (h *c07Hist) prefix() {
 		h.advance(1, 500*time.Millisecond)
 		h.doPost(a4.String(), h.pool[3].Root, 100, 1, 0, "{}")
 	}
+	// a plan that lapsed long ago: the account's file is still live (posted shortly before a reward block, so it is
+	// in its first window there), more than a year passes without a renewal, reward blocks run, then the account
+	// buys again: the new plan carries the footprint of the file that is still held
+	a5 := Acct(5)
+	h.doBuy(a2, a5.String(), 30, 2_000_000_000, "ujkl")
+	if d := (h.cw - 10) - h.e.Height%h.cw; d > 0 {
+		h.advance(d, time.Duration(d)*6*time.Second)
+	} else {
+		h.advance(h.cw+d, time.Duration(h.cw+d)*6*time.Second)
+	}
+	h.doPost(a5.String(), m0, 777, 2, 0, "{}")
+	h.advance(1, 400*24*time.Hour)
+	h.doReward()
+	h.doFree(a5.String())
+	h.doBuy(a2, a5.String(), 30, 2_000_000_000, "ujkl")
+	h.doFree(a5.String())
+	h.doPost(a5.String(), m1, 1_999_999_000, 1, 0, "{}") // does not fit beside the file that is held
+	h.doDelete(a5.String(), hex.EncodeToString(m0), h.e.Height-11)
 }
 
 func (h *c07Hist) liveFiles() []c07File { return h.observe().Files }
